@@ -570,8 +570,23 @@ func TestC10(t *testing.T) {
 		if gen.Pick(rt, "slow_parser", 4) == 0 {
 			parser = copyingParser{slow: runtime.Gosched}
 		}
+		// in a quarter of the scripts a second, independent stream is alive at the same time (a controller holds one
+		// stream per switch): nothing of either connection may show up on the other
+		var noise *noiseStream
+		if gen.Pick(rt, "second_stream", 4) == 0 {
+			noise = startNoiseStream(rt, 20+gen.Pick(rt, "noise_frames", 60))
+			c.Label("second_stream_alive")
+		}
 		got, errs, timedOut, _ := runInbound(sc, parser, key, len(frames))
-		if judgeInbound(c, rt, sc, wantKeys, allowed, got, errs, timedOut, "raw") && nontrivialIn(sc) {
+		ok := judgeInbound(c, rt, sc, wantKeys, allowed, got, errs, timedOut, "raw")
+		if noise != nil {
+			foreign, missing := noise.stop()
+			if ok && (foreign > 0 || missing > 0) {
+				c.Report(rt, "C10|raw|cross-stream", fmt.Sprintf("second stream: %d deliveries that are not its own frames, %d of its own frames never delivered: script %v", foreign, missing, sc.desc), map[string]any{"script": sc.desc})
+				ok = false
+			}
+		}
+		if ok && nontrivialIn(sc) {
 			h := [][]byte{[]byte(fmt.Sprint(sc.desc, chunkSizes(sc.chunks, 1000)))}
 			c.NonTrivial(ev.Hash64(append(h, frames[0])...))
 		}
@@ -627,4 +642,84 @@ func TestC10Parse(t *testing.T) {
 			c.NonTrivial(ev.Hash64([]byte(fmt.Sprint(sc.desc, chunkSizes(sc.chunks, 1000))), bytes.Join(frames[:min(len(frames), 4)], nil)))
 		}
 	})
+}
+
+// noiseStream is a second MessageStream with its own connection and frames
+// (xids from 0x80000000), consumed by its own goroutine.
+type noiseStream struct {
+	conn   *scriptConn
+	ms     *util.MessageStream
+	want   map[string]int
+	mu     sync.Mutex
+	seen   map[string]int
+	done   chan struct{}
+	closed chan struct{}
+}
+
+func startNoiseStream(rt *rapid.T, n int) *noiseStream {
+	ns := &noiseStream{want: map[string]int{}, seen: map[string]int{}, done: make(chan struct{}), closed: make(chan struct{})}
+	var chunks [][]byte
+	for i := 0; i < n; i++ {
+		f := rawFrame(rt, 0x80000000+uint32(i), []int{8, 24, 200, 2047, 2048, 2100, 3000}[i%7])
+		ns.want[frameKey(f)]++
+		// two reads per frame, cut inside the length prefix for every third frame
+		cut := len(f) / 2
+		if i%3 == 0 {
+			cut = 2
+		}
+		chunks = append(chunks, f[:cut], f[cut:])
+	}
+	ns.conn = newScriptConn(chunks, nil)
+	ns.conn.delay = func(i int) { runtime.Gosched() }
+	ns.ms = util.NewMessageStream(ns.conn, copyingParser{})
+	go func() {
+		defer close(ns.closed)
+		for {
+			select {
+			case m := <-ns.ms.Inbound:
+				if r, ok := m.(*rawMsg); ok {
+					ns.mu.Lock()
+					ns.seen[frameKey(r.data)]++
+					ns.mu.Unlock()
+				}
+			case <-ns.ms.Error:
+			case <-ns.done:
+				return
+			}
+		}
+	}()
+	return ns
+}
+
+// stop waits (up to the loss bound) for the noise stream's own frames, then
+// ends it; returns foreign deliveries and missing own frames.
+func (ns *noiseStream) stop() (foreign, missing int) {
+	deadline := time.Now().Add(lossWait)
+	for {
+		ns.mu.Lock()
+		foreign, missing = 0, 0
+		for k, n := range ns.seen {
+			if n > ns.want[k] {
+				foreign += n - ns.want[k]
+			}
+		}
+		for k, n := range ns.want {
+			if ns.seen[k] < n {
+				missing += n - ns.seen[k]
+			}
+		}
+		ns.mu.Unlock()
+		if missing == 0 || foreign > 0 || time.Now().After(deadline) {
+			break
+		}
+		time.Sleep(time.Millisecond)
+	}
+	close(ns.done)
+	<-ns.closed
+	select {
+	case ns.ms.Shutdown <- true:
+	default:
+	}
+	ns.conn.Close()
+	return
 }
